@@ -261,6 +261,8 @@ def check(ctx):
                                 and dotted(r.value.args[0]) == prm and not r.value.keywords for r in rets)
         tgt = prog.resolve_name(da.fi.module, target)
         ok = ok and getattr(tgt, "qualname", None) == f"{UTIL}.{target}"
+        # "its argument" is the caller's value: the parameter is never rebound on the way to the call
+        ok = ok and not any(isinstance(n, ast.Name) and n.id == prm and isinstance(n.ctx, (ast.Store, ast.Del)) for n in ast.walk(da.fi.node))
         ctx.ob("C20-D3/DEP", ok, da.site(), f"{da.fi.name} returns {target}(<its argument>) unchanged", func=da.fi.qualname)
         for x in da.stmts(ast.Raise):
             k = dotted(x.exc.func) if isinstance(x.exc, ast.Call) else dotted(x.exc) if x.exc else None
